@@ -137,6 +137,28 @@ def check(ctx: Ctx) -> list[RuleResult]:
                         and contains_call(ast.Module(body=n.body, type_ignores=[]), method_call("_async_send_cmd"))
                     ):
                         helpers.append(f)
+    # the same conversion packaged as a context manager: a @contextmanager method whose only `yield` sits in a try with that handler,
+    # and a method that awaits _async_send_cmd inside `with self.<that>(..):`
+    cms = []
+    for f in funcs:
+        if f.cls is None or not f.cls.name.startswith("BindContext") or not any("contextmanager" in d for d in f.decorators):
+            continue
+        yields = [y for y in own_nodes(f.node) if isinstance(y, (ast.Yield, ast.YieldFrom))]
+        for n in own_nodes(f.node):
+            if isinstance(n, ast.Try) and len(yields) == 1 and any(yields[0] is x for b0 in n.body for x in ast.walk(b0)):
+                for h in n.handlers:
+                    hb = ast.Module(body=h.body, type_ignores=[])
+                    if any(ea.h.is_sub("ramses_tx.exceptions.ProtocolError", c) for c in ea._handler_classes(h, f)) and contains_call(hb, method_call("_handle_send_failed")) and any(isinstance(x, ast.Raise) and "BindingFlowFailed" in norm(x) for x in ast.walk(hb)):
+                        cms.append(f)
+    for f in funcs:
+        if f.cls is None or not f.cls.name.startswith("BindContext"):
+            continue
+        for n in own_nodes(f.node):
+            if isinstance(n, (ast.With, ast.AsyncWith)) and any(isinstance(it.context_expr, ast.Call) and isinstance(it.context_expr.func, ast.Attribute) and any(it.context_expr.func.attr == c.name for c in cms) for it in n.items) and contains_call(ast.Module(body=n.body, type_ignores=[]), method_call("_async_send_cmd")):
+                # every send in this function must be inside such a with-block
+                inside = {id(x) for b0 in n.body for x in ast.walk(b0)}
+                if all(id(c) in inside for c in own_nodes(f.node) if isinstance(c, ast.Call) and isinstance(c.func, ast.Attribute) and c.func.attr == "_async_send_cmd"):
+                    helpers.append(f)
     r2.instances += 1
     r2.nontrivial += 1
     if helpers:
@@ -254,33 +276,36 @@ def check(ctx: Ctx) -> list[RuleResult]:
     r6 = RuleResult("R6", "only offers are broadcast to binding devices", "the `_is_binding` fan-out in process_msg is guarded by phase == offer", min_instances=1)
     pm = repo.func("ramses_rf.dispatcher.process_msg")
     offer = ctx.const("ramses_tx.const", "SZ_OFFER") if "SZ_OFFER" in ctx.consts._module_env("ramses_tx.const") else "offer"
-    fan = [n for n in ast.walk(pm.node) if isinstance(n, ast.Assign) and any(isinstance(x, ast.Attribute) and x.attr == "_is_binding" for x in ast.walk(n.value))]
+    # the selection may sit in process_msg or in a same-module helper it calls, as an assignment or a returned expression
+    from .common import expand as _expand20, facts_at, module_scope
+
+    fan = []
+    for g in module_scope(ctx, pm):
+        for n in own_nodes(g.node):
+            if isinstance(n, (ast.Assign, ast.Return)) and n.value is not None and any(isinstance(x, ast.Attribute) and x.attr == "_is_binding" for x in ast.walk(n.value)):
+                fan.append((g, n))
     if not fan:
         raise AnalysisError("process_msg: the fan-out to binding devices was not found")
-    for n in fan:
+    for g, n in fan:
         r6.instances += 1
         r6.nontrivial += 1
         ok = False
-        child: ast.AST = n
-        p2 = getattr(n, "parent", None)
-        while p2 is not None and not isinstance(p2, (ast.FunctionDef, ast.AsyncFunctionDef)):
-            if isinstance(p2, ast.If) and child in p2.body:
-                for atom, holds in _implied(p2.test, True):
-                    if holds and isinstance(atom, ast.Compare) and len(atom.ops) == 1 and isinstance(atom.ops[0], ast.Eq):
-                        sides = [atom.left, atom.comparators[0]]
-                        consts_ = []
-                        for sd in sides:
-                            try:
-                                consts_.append(ctx.consts.eval_in(pm, sd))
-                            except Exception:
-                                consts_.append(None)
-                        if any(c == offer for c in consts_) and any("payload" in norm(sd) and "PHASE" in norm(sd).upper() for sd in sides):
-                            ok = True
-            child, p2 = p2, getattr(p2, "parent", None)
+        for t_, v_ in facts_at(n):
+            for atom, holds in _implied(_expand20(g.node, t_, pure_only=False), v_):  # type: ignore[arg-type]
+                if holds and isinstance(atom, ast.Compare) and len(atom.ops) == 1 and isinstance(atom.ops[0], ast.Eq):
+                    sides = [atom.left, atom.comparators[0]]
+                    consts_ = []
+                    for sd in sides:
+                        try:
+                            consts_.append(ctx.consts.eval_in(g, sd))
+                        except Exception:
+                            consts_.append(None)
+                    if any(c == offer for c in consts_) and any("payload" in norm(sd) and "PHASE" in norm(sd).upper() for sd in sides):
+                        ok = True
         if ok:
             r6.ok({"fan_out": norm(n)[:70], "guard": "msg.payload[phase] == offer"})
         else:
-            r6.fail(f"{pm.short}:binding-fan-out-not-offer-only", pm.loc(n), "process_msg hands a 1FC9 to every device that is binding without requiring it to be an *offer*: an accept/confirm of an unrelated handshake is delivered to (and taken by) a device waiting for its own")
+            r6.fail(f"{pm.short}:binding-fan-out-not-offer-only", g.loc(n), "process_msg hands a 1FC9 to every device that is binding without requiring it to be an *offer*: an accept/confirm of an unrelated handshake is delivered to (and taken by) a device waiting for its own")
     out.append(r6)
     return out
 
